@@ -234,14 +234,7 @@ func (s *KVSys[K, V]) api(b *kvBox[K, V]) *kvAPI[K, V] {
 	case "treebidimap":
 		return wrapTreeBidiMap(treebidimap.NewWith[K, V](b.kc(), b.vc()))
 	case "treeset":
-		t := treeset.NewWith[K](b.kc())
-		var zv V
-		return &kvAPI[K, V]{obj: t, name: "TreeSet", put: func(k K, _ V) { t.Add(k) },
-			get:    func(k K) (V, bool) { return zv, t.Contains(k) },
-			remove: func(k K) { t.Remove(k) }, clear: t.Clear, size: t.Size,
-			empty: t.Empty, keys: t.Values, values: func() []V { return make([]V, t.Size()) }, str: t.String,
-			setIter: func() *IterDyn { it := t.Iterator(); return idxIterRev[K](&it) },
-			bound:   rbBound, putMul: 1, remMul: 1}
+		return wrapTreeSetKV[K, V](treeset.NewWith[K](b.kc()))
 	case "hashmap":
 		t := hashmap.New[K, V]()
 		return &kvAPI[K, V]{obj: t, name: "HashMap", put: t.Put, get: t.Get, remove: t.Remove, clear: t.Clear, size: t.Size,
@@ -254,6 +247,17 @@ func (s *KVSys[K, V]) api(b *kvBox[K, V]) *kvAPI[K, V] {
 			empty: t.Empty, keys: t.Keys, values: t.Values, str: t.String, getKey: t.GetKey}
 	}
 	panic("kv kind " + s.Kind)
+}
+
+// a TreeSet seen as a map from its members to the zero value (rank-abstract and float-key jobs)
+func wrapTreeSetKV[K comparable, V comparable](t *treeset.Set[K]) *kvAPI[K, V] {
+	var zv V
+	return &kvAPI[K, V]{obj: t, name: "TreeSet", put: func(k K, _ V) { t.Add(k) },
+		get:    func(k K) (V, bool) { return zv, t.Contains(k) },
+		remove: func(k K) { t.Remove(k) }, clear: t.Clear, size: t.Size,
+		empty: t.Empty, keys: t.Values, values: func() []V { return make([]V, t.Size()) }, str: t.String,
+		setIter: func() *IterDyn { it := t.Iterator(); return idxIterRev[K](&it) },
+		bound:   rbBound, putMul: 1, remMul: 1}
 }
 
 func wrapRBT[K comparable, V comparable](t *redblacktree.Tree[K, V]) *kvAPI[K, V] {
